@@ -7,6 +7,24 @@ pub fn fmt_stub(_args: std::fmt::Arguments<'_>) -> String {
     String::new()
 }
 
+/// stub of `core::fmt::write` for harnesses whose subject is not the text (a real `write!` makes CBMC crash, status 139)
+pub fn fmt_write_stub(_out: &mut dyn core::fmt::Write, _args: core::fmt::Arguments<'_>) -> core::fmt::Result {
+    Ok(())
+}
+
+/// Stub of `SolvingResult::unwrap_model` for the C17 harnesses: the panic on `Unknown` (the abort) ends the path.
+pub fn unwrap_model_stub(r: crustabri::sat::SolvingResult) -> Option<crustabri::sat::Assignment> {
+    match r {
+        crustabri::sat::SolvingResult::Satisfiable(a) => Some(a),
+        crustabri::sat::SolvingResult::Unsatisfiable => None,
+        crustabri::sat::SolvingResult::Unknown => {
+            #[cfg(kani)]
+            kani::assume(false);
+            panic!(r#"cannot unwrap solving result when the solver returned "Unknown""#)
+        }
+    }
+}
+
 /// Stub for `std::backtrace::Backtrace::capture` (anyhow captures one per error).
 pub fn bt_stub() -> std::backtrace::Backtrace {
     std::backtrace::Backtrace::disabled()
